@@ -185,6 +185,11 @@ def _cases_R(tier):
     for n in range(1, 5):
         for seq in itertools.product("GSDF", repeat=n):
             yield ("R", "".join(seq))
+    # the same with a second (dotted, identity) decorator written above (lower case) or below (s', d') an accessor: g s d / t e
+    for n in range(1, 4 if tier == "quick" else 5):
+        for seq in itertools.product("GSDFgsdte", repeat=n):
+            if any(c in "gsdte" for c in seq):
+                yield ("R", "".join(seq))
 
 
 def all_cases(tier):
@@ -408,7 +413,7 @@ def _run_O(griffe, acc, case):
 
 def _run_R(griffe, acc, case):
     _, seq = case
-    lines = ["class K:"]
+    lines = ["import types", "ns = types.SimpleNamespace(ident=lambda f: f)", "class K:"]
     for i, ch in enumerate(seq):
         if ch == "G":
             lines += ["    @property", f"    def p(self): return {i}"]
@@ -416,6 +421,16 @@ def _run_R(griffe, acc, case):
             lines += ["    @p.setter", f"    def p(self, v{i}): ..."]
         elif ch == "D":
             lines += ["    @p.deleter", f"    def p(self): return {i}"]
+        elif ch == "g":
+            lines += ["    @ns.ident", "    @property", f"    def p(self): return {i}"]
+        elif ch == "s":
+            lines += ["    @ns.ident", "    @p.setter", f"    def p(self, v{i}): ..."]
+        elif ch == "d":
+            lines += ["    @ns.ident", "    @p.deleter", f"    def p(self): return {i}"]
+        elif ch == "t":
+            lines += ["    @p.setter", "    @ns.ident", f"    def p(self, v{i}): ..."]
+        elif ch == "e":
+            lines += ["    @p.deleter", "    @ns.ident", f"    def p(self): return {i}"]
         else:
             lines += [f"    def p(self, q{i}): ..."]
     src = "\n".join(lines) + "\n"
@@ -444,8 +459,9 @@ def _run_R(griffe, acc, case):
                     acc.violation(f"property/{attr}-which", f"p.{attr} is the def at line {g.lineno}, CPython uses the one at line {f.__code__.co_firstlineno}", case, {"src": src})
                 if (label in m.labels) != (f is not None):
                     acc.violation(f"property/label-{label}", f"label {label} present={label in m.labels}, CPython {attr}={'set' if f else 'unset'}", case, {"src": src})
-            if m.lineno != obj.fget.__code__.co_firstlineno + 1:
-                acc.violation("property/getter-which", f"property attribute is the def at line {m.lineno}, CPython fget is at line {obj.fget.__code__.co_firstlineno + 1}", case, {"src": src})
+            defline = next(n for n in range(obj.fget.__code__.co_firstlineno, len(lines) + 1) if lines[n - 1].lstrip().startswith("def "))
+            if m.lineno != defline:
+                acc.violation("property/getter-which", f"property attribute is the def at line {m.lineno}, CPython fget is at line {defline}", case, {"src": src})
     else:
         if not m.is_function:
             acc.violation("property/plain-def-lost", f"p is a plain function in CPython but Griffe has {m.kind.value}", case, {"src": src})
